@@ -680,7 +680,8 @@ theorem bare_of_high : ∀ b : UInt8, 0x80 ≤ b.toNat → isBareByte b = true :
   apply byte_forall; decide +kernel
 
 theorem bare_of_ascii : ∀ b : UInt8, 0x20 ≤ b.toNat → b.toNat ≤ 0x7e → isShellChar b.toNat = false →
-    isBareByte b = true ∧ b ≠ 0x23 ∧ b ≠ 0x7e ∧ b ≠ 0x20 ∧ b ≠ 0x09 ∧ b ≠ 0x27 ∧ b ≠ 0x22 ∧ b ≠ 0x24 := by
+    isBareByte b = true ∧ b ≠ 0x23 ∧ b ≠ 0x7e ∧ b ≠ 0x20 ∧ b ≠ 0x09 ∧ b ≠ 0x27 ∧ b ≠ 0x22 ∧ b ≠ 0x24 ∧
+      b ≠ 0x3d ∧ b ≠ 0x7b := by
   apply byte_forall; decide +kernel
 
 
@@ -1376,7 +1377,7 @@ theorem lexF_bare (l : Lang) (n : Nat) (c : UInt8) (rest : Bytes)
   simp
 
 theorem ptok_bare {t : Tok} (h : PTok t) (hs : isShellChar t.r = false) :
-    ∀ b ∈ t.raw, isBareByte b = true ∧ b ≠ 0x23 ∧ b ≠ 0x7e := by
+    ∀ b ∈ t.raw, isBareByte b = true ∧ b ≠ 0x23 ∧ b ≠ 0x7e ∧ b ≠ 0x3d ∧ b ≠ 0x7b := by
   obtain ⟨hv, hp, _⟩ := h
   intro b m
   by_cases hr : t.r < 0x80
@@ -1384,9 +1385,9 @@ theorem ptok_bare {t : Tok} (h : PTok t) (hs : isShellChar t.r = false) :
     rw [hb'] at m; simp at m; subst m
     obtain ⟨p1, p2⟩ := isPrint_ascii' hr hp
     have := bare_of_ascii b (by omega) (by omega) (by rw [hbr]; exact hs)
-    exact ⟨this.1, this.2.1, this.2.2.1⟩
+    exact ⟨this.1, this.2.1, this.2.2.1, this.2.2.2.2.2.2.2.2.1, this.2.2.2.2.2.2.2.2.2⟩
   · have hh := valid_high hv (by omega) b m
-    refine ⟨bare_of_high b hh, ?_, ?_⟩ <;> (intro e; subst e; simp at hh)
+    refine ⟨bare_of_high b hh, ?_, ?_, ?_, ?_⟩ <;> (intro e; subst e; simp at hh)
 
 /-! ### '…' -/
 
@@ -1604,11 +1605,17 @@ def WordShape (w : Word) : Prop :=
   (∃ v, w = [.lit v]) ∨ (∃ v, w = [.sgl false v]) ∨ (∃ v, w = [.dbl v]) ∨
   (w ≠ [] ∧ ∀ p ∈ w, ∃ v, p = Part.sgl true v)
 
+/-- When the word starts with an unquoted literal, that literal is the whole word and the whole
+    string, which then is no keyword and contains neither `=` nor `{`. -/
+def FirstLit (s : Bytes) (w : Word) : Prop :=
+  ∀ v rest, w = Part.lit v :: rest →
+    rest = [] ∧ v = s ∧ isKeyword s = false ∧ (0x3d : UInt8) ∉ s ∧ (0x7b : UInt8) ∉ s
+
 /-- Whenever Quote succeeds, its result is read back by the parser as exactly one word of one of
     the four shapes, and `expand.Literal` of that word is the original string. -/
 theorem quote_roundtrip_main (l : Lang) (s q : Bytes) (hv : validLang l = true)
     (h : quoteCore l s = .ok q) :
-    ∃ w, lexWords (resolve l) q = .ok [w] ∧ WordShape w ∧ expandLit w = .ok s := by
+    ∃ w, lexWords (resolve l) q = .ok [w] ∧ WordShape w ∧ expandLit w = .ok s ∧ FirstLit s w := by
   have hok := runes_ok s
   have hj := runes_join s
   have hq27 : Clean ([0x27] : Bytes) := clean_ascii _ (by intro b m; simp at m; subst m; decide)
@@ -1616,7 +1623,7 @@ theorem quote_roundtrip_main (l : Lang) (s q : Bytes) (hv : validLang l = true)
   · subst hs
     simp only [quoteCore, ↓reduceIte] at h
     cases h
-    refine ⟨[.sgl false []], ?_, Or.inr (Or.inl ⟨_, rfl⟩), rfl⟩
+    refine ⟨[.sgl false []], ?_, Or.inr (Or.inl ⟨_, rfl⟩), rfl, by intro v r e; cases e⟩
     have hc : Clean ([0x27, 0x27] : Bytes) := Clean.append hq27 hq27
     rw [lexWords_clean _ hc]
     exact lexF_sgl _ 1 [] (by simp)
@@ -1633,10 +1640,10 @@ theorem quote_roundtrip_main (l : Lang) (s q : Bytes) (hv : validLang l = true)
     · -- bare
       simp only [hb, ↓reduceIte] at h; cases h
       simp only [Bool.and_eq_true, Bool.not_eq_true'] at hb
-      obtain ⟨⟨hsc0, hnp0⟩, _⟩ := hb
+      obtain ⟨⟨hsc0, hnp0⟩, hkw⟩ := hb
       have hpt : ∀ t ∈ runes s, PTok t := fun t m =>
         ptok_of (hok t m) (any_false_all (by rw [← i3]; exact hnp0) t m)
-      have hbare : ∀ b ∈ s, isBareByte b = true ∧ b ≠ 0x23 ∧ b ≠ 0x7e := by
+      have hbare : ∀ b ∈ s, isBareByte b = true ∧ b ≠ 0x23 ∧ b ≠ 0x7e ∧ b ≠ 0x3d ∧ b ≠ 0x7b := by
         intro b m
         rw [← hj] at m
         obtain ⟨t, mt, mb⟩ := List.mem_flatMap.mp m
@@ -1646,8 +1653,11 @@ theorem quote_roundtrip_main (l : Lang) (s q : Bytes) (hv : validLang l = true)
       cases s with
       | nil => exact absurd rfl hs
       | cons c rest =>
-        obtain ⟨_, c23, c7e⟩ := hbare c (List.mem_cons_self ..)
-        refine ⟨[.lit (c :: rest)], ?_, Or.inl ⟨_, rfl⟩, ?_⟩
+        obtain ⟨_, c23, c7e, _, _⟩ := hbare c (List.mem_cons_self ..)
+        refine ⟨[.lit (c :: rest)], ?_, Or.inl ⟨_, rfl⟩, ?_, ?_⟩
+        rotate_left 2
+        · intro v r e; cases e
+          exact ⟨rfl, rfl, hkw, fun m => (hbare _ m).2.2.2.1 rfl, fun m => (hbare _ m).2.2.2.2 rfl⟩
         · rw [lexWords_clean _ hcl]
           have : (c :: rest).length + 1 = rest.length + 2 := by simp
           rw [this]
@@ -1680,7 +1690,10 @@ theorem quote_roundtrip_main (l : Lang) (s q : Bytes) (hv : validLang l = true)
             dollar_lex l (resolve l) hl (runes s) 0 false body [] [] [] []
               (([0x24, 0x27] ++ body ++ [0x27]).length + 1)
               (fun t m => ⟨hok t m, (i1 t m).1⟩) hd Closed.nil (by simp) (by simp; omega)
-          refine ⟨parts, ?_, Or.inr (Or.inr (Or.inr ⟨h2, h3⟩)), ?_⟩
+          refine ⟨parts, ?_, Or.inr (Or.inr (Or.inr ⟨h2, h3⟩)), ?_, ?_⟩
+          rotate_left 2
+          · intro v r e; subst e
+            obtain ⟨v', hv'⟩ := h3 _ (List.mem_cons_self ..); cases hv'
           · rw [lexWords_clean _ hcl]
             simp only [List.nil_append, List.cons_append, finish, h2, ↓reduceIte] at h1 ⊢
             exact h1
@@ -1699,7 +1712,7 @@ theorem quote_roundtrip_main (l : Lang) (s q : Bytes) (hv : validLang l = true)
             intro b m e; subst e
             simp only [Bool.not_eq_true', List.contains_eq_mem, decide_eq_false_iff_not] at hq
             exact hq m
-          refine ⟨[.sgl false s], ?_, Or.inr (Or.inl ⟨_, rfl⟩), ?_⟩
+          refine ⟨[.sgl false s], ?_, Or.inr (Or.inl ⟨_, rfl⟩), ?_, by intro v r e; cases e⟩
           · rw [lexWords_clean _ (Clean.append (Clean.append hq27 hcl) hq27)]
             have : ([0x27] ++ s ++ [0x27] : Bytes).length + 1 = (s.length + 1) + 2 := by simp
             rw [this]
@@ -1709,7 +1722,7 @@ theorem quote_roundtrip_main (l : Lang) (s q : Bytes) (hv : validLang l = true)
           simp only [hq, Bool.false_eq_true, ↓reduceIte] at h; cases h
           have hq22 : Clean ([0x22] : Bytes) :=
             clean_ascii _ (by intro b m; simp at m; subst m; decide)
-          refine ⟨[.dbl (dqBody (runes s))], ?_, Or.inr (Or.inr (Or.inl ⟨_, rfl⟩)), ?_⟩
+          refine ⟨[.dbl (dqBody (runes s))], ?_, Or.inr (Or.inr (Or.inl ⟨_, rfl⟩)), ?_, by intro v r e; cases e⟩
           · rw [lexWords_clean _ (Clean.append (Clean.append hq22 (dq_clean _ hpt)) hq22)]
             have : ([0x22] ++ dqBody (runes s) ++ [0x22] : Bytes).length + 1 =
                 ((dqBody (runes s)).length + 1) + 2 := by simp
